@@ -399,6 +399,15 @@ pub fn run(rep: &mut Report, rng: &mut Rng, thorough: bool) {
     // a search run (the check re-invokes the engine with seeds >= 1000 when a proof obligation or the
     // correspondence broke) sweeps the targeted strata completely
     let sweep = std::env::args().nth(3).and_then(|s| s.parse::<u64>().ok()).map(|s| s >= 1000).unwrap_or(false);
+    // VH_ONLY_ENCWIN=<rounds>: only the window-script correspondence, <rounds> times the thorough amount (for bulk
+    // validation of the window model outside ./check)
+    if let Some(rounds) = std::env::var("VH_ONLY_ENCWIN").ok().and_then(|s| s.parse::<u64>().ok()) {
+        for _ in 0..rounds {
+            run_encwin_script(rep, &mut rng.fork(), true, false, "");
+            run_flush_window(rep, &mut rng.fork(), false, false, "");
+        }
+        return;
+    }
     run_chunk_limit(rep, rng, thorough, sweep);
     run_dict_edge(rep, rng, thorough, sweep);
     run_far_repeats(rep, &mut rng.fork(), thorough, sweep);
